@@ -15,8 +15,8 @@ read from the AST of the working tree on every run (pure `ast`, psd_tools is nev
            guard  = "" when no `try` lies inside the loop (nested function bodies excepted), else
                     "try:except <types>:<continue|raise|return|break>" per handler, joined by ";" - "continue" means the handler
                     falls through, i.e. the loop goes on to its next iteration after the exception.
-         and kind "try" rows (header = "except <types>:<disposition>;...", guard = "wraps-call:<callees>") for every `try`
-         of such a function that is not inside a loop.
+         and kind "try" rows (header = "except <types>:<raise|return|fallthrough>;...", guard = "wraps-call:<callees of the
+         try body>") for every `try` of such a function that is not inside a loop.
          Rows of one function are in source order; functions are ordered by (module, qualified name).
 
 The committed snapshots are `PsdVerif.CostTables.sites` / `.loops` (lean/PsdVerif/Model/CostTables.lean); the ties are in
@@ -306,10 +306,16 @@ def _disposition(handler: ast.ExceptHandler) -> str:
     return "continue"      # `continue`, `pass`, a log call, an assignment ...: the loop goes on
 
 
-def _handlers_text(t: ast.Try, prefix: str):
+def _handlers_text(t: ast.Try, prefix: str, in_loop: bool = True):
     if not t.handlers:
         return [prefix + "finally-only:raise"]
-    return [prefix + "except " + (_u(h.type) if h.type is not None else "<bare>") + ":" + _disposition(h) for h in t.handlers]
+    out = []
+    for h in t.handlers:
+        d = _disposition(h)
+        if d == "continue" and not in_loop:
+            d = "fallthrough"
+        out.append(prefix + "except " + (_u(h.type) if h.type is not None else "<bare>") + ":" + d)
+    return out
 
 
 def _guard(body_stmts) -> str:
@@ -354,7 +360,7 @@ def loops_of(fn):
                 kind, header = _iter_kind(g.iter)
                 items.append((pos, 1 + i, (kind, header, "")))
         elif (isinstance(n, ast.Try) or n.__class__.__name__ == "TryStar") and id(n) not in in_loop:
-            items.append((pos, 0, ("try", ";".join(_handlers_text(n, "")), "wraps-call:" + _callees(n.body))))
+            items.append((pos, 0, ("try", ";".join(_handlers_text(n, "", in_loop=False)), "wraps-call:" + _callees(n.body))))
     items.sort(key=lambda x: (x[0], x[1]))
     return [r for _, _, r in items]
 
@@ -440,6 +446,193 @@ def gen_read_loops(ctx):
     return {"loops": len(rows), "guarded": sum(1 for r in rows if r[2] != "try" and r[4])}
 
 
+# ------------------------------------------------------------------------------------------------ companion analysis
+#
+# (phase, verdict) of an allocation site - how `CostTables.siteVerdicts` was produced. Not used by the check: the Lean file
+# lists every site explicitly, so a new site breaks `alloc_sites_tied` / `sites_all_classified` until somebody classifies it.
+#
+# phase    "open"    reachable from PSDImage.open -> PSD.read (the readers of psd/*.py, the read helpers of utils.py, engine data)
+#          "export"  pixel decoding and rendering (api/, composite/, compression decoders, get_data)
+#          "write"   only on write / save / tobytes / encode;  "other" constructors from user data (new, frompil)
+# verdict  "bounded-by-data"  the size is the length of bytes / arrays that exist, or an fp.read(n) on an in-memory stream
+#          "declared-size"    the size is a number of the file (or of the caller) not checked against the data available
+#          "constant"         a literal, or bounded by a constant of the format (one length byte, a literal divisor, ...)
+#
+# Which streams are in memory (read off PSD.read): the caller's stream is seen by FileHeader, ColorModeData, ImageResources.read,
+# LayerAndMaskInformation, LayerInfo, LayerRecords, LayerRecord.read, ChannelInfo, LayerFlags, ChannelImageData, ChannelDataList,
+# ChannelData, GlobalLayerMaskInfo.read, TaggedBlocks.read, TaggedBlock.read, ImageData.read and the utils helpers they call.
+# Every payload class (image resources, tagged blocks, descriptors, engine data, linked layers, patterns, filter effects, the
+# extra data of a layer record) is parsed from `io.BytesIO(<block already read>)` through `frombytes`.
+
+B, D, C = "bounded-by-data", "declared-size", "constant"
+
+EXPLICIT = {
+    # --- the caller's stream: io.BufferedReader.read(n) reserves n bytes before reading (returned bytes are bounded by the file)
+    ("utils.py", "read_length_block", "read", "length"): ("open", D),
+    ("psd/layer_and_mask.py", "ChannelData.read", "read", "length"): ("open", D),
+    # --- utils
+    ("utils.py", "read_fmt", "read", "fmt_size"): ("open", C),          # literal formats; '%dd' % count only in UnitFloats.read (in memory)
+    ("utils.py", "read_fmt", "struct.unpack", "fmt"): ("open", B),        # only after exactly fmt_size bytes were read
+    ("utils.py", "unpack", "struct.unpack", "fmt"): ("open", B),
+    ("utils.py", "read_length_block", "read_fmt", "fmt"): ("open", C),
+    ("utils.py", "read_padding", "read", "divisor - remainder"): ("open", C),   # < divisor, a literal 1 / 2 / 4 at every caller
+    ("utils.py", "read_pascal_string", "read", "length"): ("open", C),   # one length byte: <= 255
+    ("utils.py", "read_unicode_string", "read", "num_chars * 2"): ("open", B),  # callers are payload classes: in-memory stream
+    ("utils.py", "is_readable", "read", "size"): ("open", C),            # literal at every caller
+    ("utils.py", "read_be_array", "array.array", "str(fmt)"): ("export", C),
+    ("utils.py", "read_be_array", "read", "count * arr.itemsize"): ("export", B),   # only caller decode_rle: in-memory stream
+    ("utils.py", "be_array_from_bytes", "array.array", "str(fmt), data"): ("export", B),
+    ("utils.py", "be_array_to_bytes", ".tobytes", ""): ("write", B),
+    ("utils.py", "pack", "struct.pack", "fmt"): ("write", B),
+    ("utils.py", "write_fmt", "struct.pack", "fmt"): ("write", B),
+    ("utils.py", "write_padding", "struct.pack", "'%dx' % (divisor - remainder)"): ("write", C),
+    ("utils.py", "write_position", "struct.pack", "str('>' + fmt)"): ("write", C),
+    # --- compression (decoders run on get_data / topil / numpy / composite, never on open)
+    ("compression/__init__.py", "_decode_rle_row", "rle.decode", "row, row_size"): ("export", B),   # row_size <= 64 * len(row) checked first
+    ("compression/__init__.py", "_inflate", "decompress", "data, max(length, 1)"): ("export", D),   # capped by width*height*bytes, not by the data
+    ("compression/__init__.py", "_inflate", "decompress", "decompressor.unconsumed_tail, 1"): ("export", C),
+    ("compression/__init__.py", "decompress", "call:_inflate", "data, length"): ("export", D),
+    ("compression/__init__.py", "decompress", "call:decode_rle", "data, width, height, depth, version"): ("export", B),
+    ("compression/__init__.py", "decompress", "call:decode_prediction", "decompressed, width, height, depth"): ("export", B),
+    ("compression/__init__.py", "decompress", "Image.new", "mode, (width, height), color=0"): ("export", D),   # `result is None`: dead as written
+    ("compression/__init__.py", "decompress", ".tobytes", ""): ("export", D),
+    ("compression/__init__.py", "decode_rle", "call:read_be_array", "('H', 'I')[version - 1], height, fp"): ("export", B),
+    ("compression/rle.py", "decode", "repeat", "data[i:i + 1] * (1 + bit)"): ("export", C),          # <= 128
+    # --- psd: export / other
+    ("psd/image_data.py", "ImageData.get_data", "call:decompress",
+     "self.data, self.compression, header.width, header.height * header.channels, header.depth, header.version"): ("export", D),
+    ("psd/layer_and_mask.py", "ChannelData.get_data", "call:decompress", "self.data, self.compression, width, height, depth, version"): ("export", D),
+    ("psd/patterns.py", "VirtualMemoryArray.get_data", "call:decompress", "self.data, self.compression, width, height, self.depth, version=1"): ("export", D),
+    ("psd/image_data.py", "ImageData.new", "repeat", "(color,) * header.channels"): ("other", D),
+    ("psd/image_data.py", "ImageData.new", "repeat", "pack(fmt, color[i]) * plane_size"): ("other", D),
+    ("psd/image_data.py", "ImageData.new", "struct.pack", "fmt"): ("other", C),
+    ("psd/color_mode_data.py", "ColorModeData.interleave", ".tobytes", ""): ("export", C),
+    # --- psd: computed formats
+    ("psd/descriptor.py", "UnitFloats.read", "read_fmt", "'%dd' % count"): ("open", B),   # in-memory; unpack only after 8*count bytes were read
+    ("psd/header.py", "FileHeader.read", "read_fmt", "cls._FORMAT"): ("open", C),
+    ("psd/layer_and_mask.py", "ChannelInfo.read", "read_fmt", "('hI', 'hQ')[version - 1]"): ("open", C),
+    ("psd/layer_and_mask.py", "LayerAndMaskInformation.read", "read_fmt", "('I', 'Q')[version - 1]"): ("open", C),
+    ("psd/layer_and_mask.py", "LayerInfo.read", "read_fmt", "('I', 'Q')[version - 1]"): ("open", C),
+    ("psd/header.py", "FileHeader.write", "write_fmt", "self._FORMAT"): ("write", C),
+    ("psd/layer_and_mask.py", "ChannelInfo.write", "write_fmt", "('hI', 'hQ')[version - 1]"): ("write", C),
+    ("psd/layer_and_mask.py", "LayerInfo.write", "write_fmt", "fmt"): ("write", C),
+    # --- api / composite exceptions to the defaults below
+    ("api/layers.py", "PixelLayer.frompil", "Image.new", "'L', pil_im.size, 255"): ("other", B),
+    ("api/psd_image.py", "PSDImage._merged_planes", "repeat", "[plane(np.ones_like(alpha))] * header.channels"): ("write", D),
+    ("composite/__init__.py", "composite", "repeat", "(color,) * EXPECTED_CHANNELS[color_mode]"): ("export", C),
+    ("composite/vector.py", "_make_noise_gradient_color", "np.linspace", "0, 1, 256, dtype=np.float32"): ("export", C),
+}
+
+_SIZE_OF_EXISTING = ("np.zeros_like", "np.ones_like", "np.empty_like", "np.full_like", "np.repeat", "np.stack", "np.concatenate",
+                     "np.asarray", "np.array", "np.frombuffer", "Image.merge", "Image.fromarray", ".tobytes", "bytesio", "bytes",
+                     "bytearray", "array.array", "zlib.compress", "zlib.decompress", "call:be_array_from_bytes", "call:_decode_rle_row",
+                     "write_fmt", "struct.pack", "struct.unpack")
+_FROM_DIMENSIONS = ("np.zeros", "np.ones", "np.empty", "np.full", "np.linspace", "np.meshgrid", "np.tile", "np.indices", "np.arange",
+                    "Image.new", "Image.frombytes", "Image.frombuffer", "Image.open", ".resize", ".crop", "list-range")
+
+
+def phase_of(mod: str, qual: str) -> str:
+    parts = qual.split(".")
+    writer = not is_reader_function(qual, False) or "_merged_planes" in parts
+    if any(p in ("frompil", "new", "set_data") for p in parts):
+        return "other"
+    if mod.startswith(("api/", "composite/")):
+        return "write" if writer and "_merged_planes" in parts else "export"
+    if mod.startswith("compression/"):
+        return "write" if writer else "export"
+    if mod == "utils.py" or mod.startswith("psd/"):
+        if writer:
+            return "write"
+        return "export" if any(p in ("get_data", "interleave") for p in parts) else "open"
+    return "other"
+
+
+def classify(site):
+    """(phase, verdict) - ("?", "?") when no rule applies: somebody has to look"""
+    mod, qual, kind, expr = site
+    if site in EXPLICIT:
+        return EXPLICIT[site]
+    phase = phase_of(mod, qual)
+    if kind == "read":
+        if expr == "":
+            return phase, B                      # fp.read(): what is there
+        try:
+            if _literal(ast.parse(expr, mode="eval").body):
+                return phase, C
+        except SyntaxError:
+            pass
+        if mod.startswith(("psd/", "compression/")):
+            return phase, B                      # payload classes and decoders read from io.BytesIO(<block already read>)
+        return "?", "?"
+    if kind == "repeat" and phase == "write":
+        return phase, B
+    if kind.startswith("np.") and ".shape[" in expr and "height" not in expr and "width" not in expr:
+        return phase, B                          # the shape of an array that exists
+    if qual == "ColorModeData.interleave":
+        return phase, C                          # 256 entries of 3 bytes
+    if kind in _SIZE_OF_EXISTING:
+        return phase, B
+    if kind in _FROM_DIMENSIONS:
+        return phase, D
+    return "?", "?"
+
+
+def model_source(root: Path) -> str:
+    """lean/PsdVerif/Model/CostTables.lean for the current source (the snapshot somebody reviews and commits)"""
+    _, sites = alloc_source(root)
+    _, loops = loops_source(root)
+    rows = []
+    for s in sites:
+        ph, vd = classify(s)
+        rows.append("  ((" + ", ".join(_s(y) for y in s) + "), " + _s(ph) + ", " + _s(vd) + ")")
+    return MODEL_HEAD + (
+        "/-- snapshot of `Generated.AllocSites.sites` -/\n"
+        f"def sites : List (String × String × String × String) := {_rows(sites)}\n\n"
+        "/-- snapshot of `Generated.ReadLoops.loops` -/\n"
+        f"def loops : List (String × String × String × String × String) := {_rows(loops)}\n\n"
+        "/-- every allocation site with its (phase, verdict) -/\n"
+        "def siteVerdicts : List ((String × String × String × String) × String × String) := [\n" + ",\n".join(rows) + "\n]\n\n"
+        "end PsdVerif.CostTables\n")
+
+
+MODEL_HEAD = """/-
+C06 (malformed input fails safely) - what the counting model of the reader assumes about the source, in the shape of the two
+tables `harness/extract_c06.py` regenerates from the working tree on every run:
+
+* `sites`  every place of src/psd_tools where memory is allocated from a computed size (module, function, kind, size expression);
+* `loops`  every loop - and every `try` outside a loop - of the reading functions of psd/*.py, utils.py, compression/*.py
+           (module, function, kind, header, guard);
+* `siteVerdicts`  the review of every site: phase "open" | "export" | "write" | "other" and verdict
+           "bounded-by-data" | "declared-size" | "constant" (the rules and the reasons: `classify` in harness/extract_c06.py).
+
+The ties (`decide`) are in Lemmas/CostTablesTied.lean. A new allocation site, a new loop, a new `try` in a reader changes a
+regenerated table and breaks its tie until this snapshot is reviewed again (`python3 harness/extract_c06.py --emit-model`).
+
+Streams: `PSD.read` hands the caller's stream to the section readers (header, colour mode data, image resources block, layer
+and mask information, layer records, channel data, tagged-block framing, image data); every payload class is parsed from
+`io.BytesIO(<block already read>)`. `fp.read(n)` on an in-memory stream returns at most what exists ("bounded-by-data");
+on the caller's stream (an `io.BufferedReader` for a path) `read(n)` reserves `n` bytes before it reads, so the two sites
+`utils.read_length_block` and `ChannelData.read` are "declared-size" at phase "open": the bytes RETURNED are bounded by the
+file, the transient reservation is the declared length (4-byte lengths: < 4 GiB of untouched address space, MemoryError at
+worst; 8-byte lengths of PSB: OverflowError / ValueError / MemoryError).
+Core Lean only.
+-/
+import PsdVerif.Generated.AllocSites
+import PsdVerif.Generated.ReadLoops
+
+namespace PsdVerif.CostTables
+
+/-- `pat` occurs in the character list (structural recursion: `String.splitOn` does not reduce in the kernel) -/
+def hasSub (pat : List Char) : List Char → Bool
+  | [] => pat.isEmpty
+  | c :: cs => pat.isPrefixOf (c :: cs) || hasSub pat cs
+
+/-- the string `s` mentions `pat` -/
+def mentions (s pat : String) : Bool := hasSub pat.toList s.toList
+
+"""
+
+
 # ------------------------------------------------------------------------------------------------ command line
 
 def main(argv):
@@ -448,6 +641,8 @@ def main(argv):
     ap.add_argument("--root", help="the psd_tools package directory (default: core.REPO/src/psd_tools)")
     ap.add_argument("--write", action="store_true", help="write lean/PsdVerif/Generated/{AllocSites,ReadLoops}.lean")
     ap.add_argument("--lean", action="store_true", help="print the two Lean sources instead of the plain tables")
+    ap.add_argument("--emit-model", action="store_true", help="print lean/PsdVerif/Model/CostTables.lean for the current source")
+    ap.add_argument("--verdicts", action="store_true", help="print the sites with the (phase, verdict) of the companion analysis")
     a = ap.parse_args(argv)
     if a.root:
         root = Path(a.root)
@@ -456,8 +651,15 @@ def main(argv):
     else:
         sys.path.insert(0, str(Path(__file__).resolve().parent))
         root = _root_of_ctx()
+    if a.emit_model:
+        sys.stdout.write(model_source(root))
+        return 0
     s_src, s_rows = alloc_source(root)
     l_src, l_rows = loops_source(root)
+    if a.verdicts:
+        for r in s_rows:
+            print("  " + " | ".join(classify(r)) + " || " + " | ".join(r))
+        return 0
     if a.write:
         gen = Path(__file__).resolve().parent.parent / "lean" / "PsdVerif" / "Generated"
         gen.mkdir(parents=True, exist_ok=True)
